@@ -195,11 +195,14 @@ fn confirm_real(m1: &Message<'static>, r1: &(String, Vec<u8>, bool), m2: &Messag
                 // an unpaced exchange takes microseconds; on a loaded machine single measurements can be slow, so up to
                 // 40 are taken and one fast one refutes the candidate (a pacing delay is never shorter than its sleep)
                 let mut min = f64::MAX;
+                let mut max = 0f64;
                 for k in 0..40 {
                     if let Some(ms) = real_measure(&pair) {
                         min = min.min(ms[which].2);
+                        max = max.max(ms[which].2);
                     }
-                    if k >= 4 && min < 0.030 {
+                    // five measurements that agree to within 5 ms are a sleep, not scheduling noise: no need for more
+                    if k >= 4 && (min < 0.030 || max - min < 0.005) {
                         break;
                     }
                 }
@@ -319,11 +322,16 @@ pub fn run(ctx: &Ctx) -> Report {
             // loaded machine: an unpaced exchange that looks slow is measured up to 35 more times; one fast
             // measurement settles it (a real pacing delay can never be shorter than its sleep)
             let mut extra = 0;
+            let mut worst = best.2;
             while !is_chunk && !got_inprog && best.2 >= 0.030 && best.2 != f64::MAX && extra < 35 {
                 extra += 1;
                 real_evals += 1;
                 if let Some(ms) = real_measure(&pair) {
+                    worst = worst.max(ms[0].2);
                     best = (best.0.min(ms[0].0), best.1.min(ms[0].1), best.2.min(ms[0].2));
+                }
+                if extra >= 3 && worst - best.2 < 0.005 {
+                    break; // consistently slow to within 5 ms: a sleep, not noise
                 }
             }
             if best.2 == f64::MAX {
